@@ -351,7 +351,39 @@ pub fn gen_wide(rng: &mut Rng, cap: usize, full: bool) -> (Vec<u8>, &'static str
     } else {
         rng.log_uniform(1, cap.max(2) as u64) as usize
     };
-    match rng.below(11) {
+    match rng.below(13) {
+        11 | 12 => {
+            // a header / key / claims map with n keys that are NOT labels: floats (with NaN and
+            // infinities among them), byte strings, arrays, booleans - rejected, but only after
+            // whatever the decoder does with the key list
+            let n = n.min(cap / 5).clamp(1, 100_000);
+            let floats_only = rng.bool();
+            let mut o = head(5, n as u64);
+            for i in 0..n {
+                match if floats_only { 0 } else { rng.below(5) } {
+                    0 => {
+                        let bits: u16 = match i % 11 {
+                            3 => 0x7e00,
+                            7 => 0x7c00,
+                            9 => 0xfe01,
+                            _ => 0x3c00u16.wrapping_add((i as u16).wrapping_mul(13)) & 0x7bff,
+                        };
+                        o.push(0xf9);
+                        o.extend(bits.to_be_bytes());
+                    }
+                    1 => o.extend([0x41, i as u8]),
+                    2 => o.extend([0x81, 0x00]),
+                    3 => o.push(if i % 2 == 0 { 0xf4 } else { 0xf6 }),
+                    _ => o.extend(head(1, i as u64)),
+                }
+                o.push(0x00);
+            }
+            match rng.below(3) {
+                0 => carry_header(rng, &o),
+                1 => (o, "ClaimsSet"),
+                _ => (o, "CoseKey"),
+            }
+        }
         8 | 9 | 10 => {
             // n distinct TEXT labels (3 characters each) in a header / claims set / key
             let n = n.min(cap / 6).min(400_000);
